@@ -8,7 +8,12 @@ computed from the source documents and from what every referenced rule converts 
 separately through the real code); extended conditions are lexed and compared by truth table with the
 generator's source expression."""
 import copy, itertools, random, re
-from vlib.core import Property, Suite, cstr, clist, cbool, copt, cnat, cZ
+from vlib.core import Property, Suite, clist, cbool, copt, cnat, cZ
+
+
+def cstr(s):
+    """text as a Coq string literal, decoded by Run/C10run.v u8 (much cheaper to elaborate than a list of numbers)"""
+    return '(u8 "' + s.replace('"', '""') + '"%string)'
 
 TYPES = ["event_count", "value_count", "temporal", "temporal_ordered", "value_sum", "value_avg",
          "value_percentile", "value_median"]
@@ -252,7 +257,7 @@ def covering(rng):
 
 
 def gen_corr(tier, rng):
-    n = 700 if tier == "quick" else 12000
+    n = 450 if tier == "quick" else 12000
     out = covering(rng)
     out += [gen_case(rng, tier) for _ in range(n)]
     return out
